@@ -202,9 +202,25 @@ func toOrdered(v any, r *rand.Rand) any {
 		}
 		sort.Strings(keys)
 		r.Shuffle(len(keys), func(i, j int) { keys[i], keys[j] = keys[j], keys[i] })
+		// the source map may carry tombstones (a key set and deleted again, a rename onto an existing
+		// key): a deleted key is not part of the document
 		m := ordered.NewMap[string, any](len(keys))
-		for _, k := range keys {
+		for i, k := range keys {
+			if r.Intn(3) == 0 {
+				ghost := fmt.Sprintf("deleted-%d", i)
+				if r.Intn(2) == 0 && len(keys) > 0 {
+					ghost = keys[r.Intn(len(keys))] // a key of the document itself, deleted before it is (re)set
+				}
+				if _, isDoc := x[ghost]; !isDoc || !m.Contains(ghost) {
+					m.Set(ghost, "stale value of a deleted key")
+					m.Delete(ghost)
+				}
+			}
 			m.Set(k, toOrdered(x[k], r))
+			if r.Intn(6) == 0 {
+				m.Set("renamed-away", 1)
+				m.Replace("renamed-away", k, toOrdered(x[k], r)) // tombstones k's old slot, k moves
+			}
 		}
 		return m
 	case []any:
